@@ -18,7 +18,9 @@ type vMemWriter struct {
 	mu       sync.Mutex
 	names    []string
 	contents map[string]string
-	failAt   int // fail when this many files have been written (-1: never)
+	failAt   int  // fail when this many files have been written (-1: never)
+	oneFile  bool // only that one write fails (an unwritable file); otherwise every later write fails too (a full disk)
+	failed   bool
 	calls    int
 }
 
@@ -30,7 +32,8 @@ func (w *vMemWriter) WriteFile(file *core.File) error {
 	w.mu.Lock()
 	defer w.mu.Unlock()
 	w.calls++
-	if w.failAt >= 0 && len(w.names) >= w.failAt {
+	if w.failAt >= 0 && len(w.names) >= w.failAt && !(w.oneFile && w.failed) {
+		w.failed = true
 		return errors.New("disk full")
 	}
 	buf := bytes.NewBuffer(nil)
